@@ -100,6 +100,22 @@ int main(void)
 		}
 		size_t ip = 0, op = 0; unsigned calls = 0; int stall = 0, finishing = 0, idle = 0;
 		alarm(kind == 1 ? 25 : 120);
+		if (mode == 6) {
+			// early lzma_end: give the coder part of the input and very little output space, so that (for the threaded
+			// decoder) workers are in the middle of their Blocks, then free it at once
+			size_t stop = n ? (size_t)(seed % (n + 1)) : 0; unsigned k = 1 + rnd() % 6; uint8_t small[8];
+			for (unsigned c = 0; c < k && ip < stop; c++) {
+				size_t il = stop - ip; uint8_t *ib = malloc(il ? il : 1); memcpy(ib, in + ip, il);
+				s.next_in = ib; s.avail_in = il; s.next_out = small; s.avail_out = rnd() % 8;
+				r = lzma_code(&s, LZMA_RUN); ip += il - s.avail_in; free(ib);
+				if (r != LZMA_OK && r != LZMA_BUF_ERROR) break;
+			}
+			if (rnd() % 2) usleep(rnd() % 300);
+			lzma_end(&s);
+			printf("55 %zu 0 0 -\n", ip); fflush(stdout);
+			if (have_sf) lzma_filters_free(sf, NULL);
+			continue;
+		}
 		int e1 = -1, e2 = -1;
 		if (mode == 5) {
 			// stall history: offer the first <seed> bytes, then call twice with nothing new (the first such call must
